@@ -83,7 +83,7 @@ class Tables(Component):
     rule = ">=1 missing and >=1 present value on some side"
 
     def examples(self, tier):
-        return 150 if tier == "quick" else 1500
+        return 400 if tier == "quick" else 1500
 
     def strategy(self, tier):
         return tables_case(tier)
@@ -173,7 +173,7 @@ class Rowwise(Component):
     rule = ">=1 candidate row with a missing value and >=1 without"
 
     def examples(self, tier):
-        return 150 if tier == "quick" else 1500
+        return 400 if tier == "quick" else 1500
 
     def strategy(self, tier):
         return rowwise_case(tier)
